@@ -86,7 +86,7 @@ pub fn judge_cell(ctx: &mut Ctx, nside: u32, h: u64, rng: &mut Rng) -> Option<(f
   let rc = ref_unproj(cx.rem_euclid(8.0), cy);
   let d = dist(rc, c);
   ctx.worst_max("center_vs_reference_rad", d);
-  if d > 1e-14 { ctx.violation("ring::center-differs-from-reference", mk(), format!("got {:?} ref {:?} d={:e}", c, rc, d)); }
+  if d > 1e-13 { ctx.violation("ring::center-differs-from-reference", mk(), format!("got {:?} ref {:?} d={:e}", c, rc, d)); }
   match catch(|| ring::hash(nside, c.0, c.1)) { Ok(hh) => if hh != h { ctx.violation("hash(center(h))-not-h", mk(), format!("centre {:?} -> {}", c, hh)); }, Err(p) => ctx.violation("ring::hash-panics-at-a-cell-centre", mk(), p) }
   // vertices
   ctx.eval();
